@@ -121,6 +121,150 @@ fn check_full() -> Option<String> {
     r.map(|d| format!("{{\"replay_arg\":\"full\",\"actual\":{}}}", crate::js(&d)))
 }
 
+// ---- synthetic KyTea models (binary format as the reader consumes it), seeded ----
+const CHAR_MAP: &str = "KTHRDOabcdあい漢ア1x";
+fn cid(c: char) -> u16 { CHAR_MAP.chars().position(|x| x == c).unwrap() as u16 + 1 }
+fn put_u32(b: &mut Vec<u8>, v: u32) { b.extend_from_slice(&v.to_le_bytes()); }
+fn put_i16s(b: &mut Vec<u8>, vs: &[i16]) { put_u32(b, vs.len() as u32); for v in vs { b.extend_from_slice(&v.to_le_bytes()); } }
+fn put_string(b: &mut Vec<u8>, s: &str) { put_u32(b, s.chars().count() as u32); for c in s.chars() { b.extend_from_slice(&cid(c).to_le_bytes()); } }
+/// a KyTea dictionary = a trie (without failure links) + entries
+fn put_dictionary(b: &mut Vec<u8>, n_dicts: u8, words: &[String], put_entry: &mut dyn FnMut(&mut Vec<u8>, usize)) {
+    b.push(n_dicts);
+    if words.is_empty() { put_u32(b, 0); return; }
+    let mut states: Vec<(std::collections::BTreeMap<char, u32>, Option<u32>)> = vec![(Default::default(), None)];
+    for (i, w) in words.iter().enumerate() {
+        let mut cur = 0usize;
+        for c in w.chars() {
+            let next = states.len() as u32;
+            let e = *states[cur].0.entry(c).or_insert(next);
+            if e == next { states.push((Default::default(), None)); }
+            cur = e as usize;
+        }
+        states[cur].1 = Some(i as u32);
+    }
+    put_u32(b, states.len() as u32);
+    for (gotos, out) in &states {
+        put_u32(b, 0);
+        put_u32(b, gotos.len() as u32);
+        for (&c, &next) in gotos { b.extend_from_slice(&cid(c).to_le_bytes()); put_u32(b, next); }
+        match out { Some(e) => { put_u32(b, 1); put_u32(b, *e); b.push(1); } None => { put_u32(b, 0); b.push(0); } }
+    }
+    put_u32(b, words.len() as u32);
+    for i in 0..words.len() { put_entry(b, i); }
+}
+
+struct Synth { bytes: Vec<u8>, want: ModelData }
+
+fn synth(seed: u64) -> Synth {
+    let mut r = crate::gen::Rng(seed ^ 0xc17);
+    let (cw, tw) = (1 + r.below(3) as u8, 1 + r.below(3) as u8);
+    let dict_n = 1 + r.below(4) as u8;
+    let n_dicts = r.below(4) as u8;
+    let bias = r.below(201) as i16 - 100;
+    let text_chars: Vec<char> = "abcdあい漢ア1x".chars().collect();
+    let type_letters = ['K', 'T', 'H', 'R', 'D', 'O'];
+    let distinct = |r: &mut crate::gen::Rng, alpha: &[char], max_len: usize, count: usize| -> Vec<String> {
+        let mut v: Vec<String> = vec![];
+        for _ in 0..count * 4 {
+            if v.len() == count { break; }
+            let l = 1 + r.below(max_len);
+            let w: String = (0..l).map(|_| alpha[r.below(alpha.len())]).collect();
+            if !v.contains(&w) { v.push(w); }
+        }
+        v
+    };
+    let k1 = 1 + r.below(5);
+    let cgrams = distinct(&mut r, &text_chars, (2 * cw as usize).min(3), k1);
+    let k2 = 1 + r.below(4);
+    let tgrams = distinct(&mut r, &type_letters, (2 * tw as usize).min(3), k2);
+    let k3 = 1 + r.below(5);
+    let words = if n_dicts == 0 { vec![] } else { distinct(&mut r, &text_chars, 6, k3) };
+    let masks: Vec<u8> = words.iter().map(|_| r.below(1 << n_dicts) as u8).collect();
+    let cweights: Vec<Vec<i16>> = cgrams.iter().map(|g| (0..2 * cw as usize + 1 - g.chars().count()).map(|_| r.below(201) as i16 - 100).collect()).collect();
+    let tweights: Vec<Vec<i16>> = tgrams.iter().map(|g| (0..2 * tw as usize + 1 - g.chars().count()).map(|_| r.below(201) as i16 - 100).collect()).collect();
+    let dict_vec: Vec<i16> = (0..3 * dict_n as usize * n_dicts as usize).map(|_| r.below(201) as i16 - 100).collect();
+
+    let mut b = vec![];
+    b.extend_from_slice(b"KyTea 0.4.0 B utf8\n");
+    b.push(1); b.push(0); put_u32(&mut b, 0);
+    b.push(cw); b.push(3); b.push(tw); b.push(3); b.push(dict_n); b.push(1);
+    b.extend_from_slice(&0.1f64.to_le_bytes()); b.push(1);
+    b.extend_from_slice(CHAR_MAP.as_bytes()); b.push(0);
+    put_u32(&mut b, 2); b.push(1);
+    b.extend_from_slice(&1i32.to_le_bytes()); b.extend_from_slice(&(-1i32).to_le_bytes());
+    b.push(1); b.extend_from_slice(&1.0f64.to_le_bytes()); b.push(1);
+    put_dictionary(&mut b, 0, &cgrams, &mut |b, i| put_i16s(b, &cweights[i]));
+    put_dictionary(&mut b, 0, &tgrams, &mut |b, i| put_i16s(b, &tweights[i]));
+    put_dictionary(&mut b, 0, &[], &mut |_, _| ());
+    put_i16s(&mut b, &dict_vec);
+    put_i16s(&mut b, &[bias]);
+    put_i16s(&mut b, &[]);
+    put_i16s(&mut b, &[]);
+    put_dictionary(&mut b, n_dicts, &words, &mut |b, i| { put_string(b, &words[i]); b.push(masks[i]); });
+    put_dictionary(&mut b, 0, &[], &mut |_, _| ());
+
+    // what the statement says the converted model contains
+    let tcode = |c: char| -> u8 { match c { 'D' => 1, 'R' => 2, 'H' => 3, 'T' => 4, 'K' => 5, _ => 6 } };
+    let want = ModelData {
+        char_ngram_model: crate::gen::NgramModel(cgrams.iter().zip(&cweights).map(|(g, w)| crate::gen::NgramData { ngram: g.clone(), weights: w.iter().map(|x| *x as i32).collect() }).collect()),
+        type_ngram_model: crate::gen::NgramModel(tgrams.iter().zip(&tweights).map(|(g, w)| crate::gen::NgramData { ngram: g.chars().map(tcode).collect(), weights: w.iter().map(|x| *x as i32).collect() }).collect()),
+        dict_model: crate::gen::DictModel(words.iter().zip(&masks).map(|(w, m)| {
+            let n = w.chars().count();
+            let bucket = n.min(dict_n as usize) - 1;
+            let (mut l, mut i, mut rr) = (0i32, 0i32, 0i32);
+            for j in 0..n_dicts as usize {
+                if (m >> j) & 1 == 1 {
+                    let o = 3 * dict_n as usize * j + 3 * bucket;
+                    l += dict_vec[o] as i32; i += dict_vec[o + 1] as i32; rr += dict_vec[o + 2] as i32;
+                }
+            }
+            let mut ws = vec![i; n + 1];
+            ws[0] = l; ws[n] = rr;
+            crate::gen::WordWeightRecord { word: w.clone(), weights: ws, comment: String::new() }
+        }).collect()),
+        bias: bias as i32, char_window_size: cw, type_window_size: tw, tag_models: vec![],
+    };
+    Synth { bytes: b, want }
+}
+
+fn check_synth(seed: u64) -> Option<String> {
+    let arg = format!("synth:{}", seed);
+    crate::mark(&arg);
+    let r = std::panic::catch_unwind(move || {
+        let sy = synth(seed);
+        let km = match KyteaModel::read(sy.bytes.as_slice()) { Ok(m) => m, Err(e) => return Some(format!("synthetic model is rejected: {}", e)) };
+        let model = match Model::try_from(km) { Ok(m) => m, Err(e) => return Some(format!("conversion of the synthetic model fails: {}", e)) };
+        let out = match model.to_vec() { Ok(b) => b, Err(e) => return Some(format!("does not serialise: {}", e)) };
+        let md = match ModelData::from_bytes(&out) { Some(m) => m, None => return Some("converted model bytes do not decode".into()) };
+        let key_c = |m: &ModelData| { let mut v: Vec<(String, Vec<i32>)> = m.char_ngram_model.0.iter().map(|d| (d.ngram.clone(), d.weights.clone())).collect(); v.sort(); v };
+        let key_t = |m: &ModelData| { let mut v: Vec<(Vec<u8>, Vec<i32>)> = m.type_ngram_model.0.iter().map(|d| (d.ngram.clone(), d.weights.clone())).collect(); v.sort(); v };
+        let key_d = |m: &ModelData| { let mut v: Vec<(String, Vec<i32>)> = m.dict_model.0.iter().map(|d| (d.word.clone(), d.weights.clone())).collect(); v.sort(); v };
+        if key_c(&md) != key_c(&sy.want) { return Some(format!("character n-grams: file says {:?}, converted model has {:?}", key_c(&sy.want), key_c(&md))); }
+        if key_t(&md) != key_t(&sy.want) { return Some(format!("type n-grams: file says {:?}, converted model has {:?}", key_t(&sy.want), key_t(&md))); }
+        if key_d(&md) != key_d(&sy.want) { return Some(format!("dictionary: file says {:?}, converted model has {:?}", key_d(&sy.want), key_d(&md))); }
+        if (md.bias, md.char_window_size, md.type_window_size) != (sy.want.bias, sy.want.char_window_size, sy.want.type_window_size) {
+            return Some(format!("bias / windows: file says {:?}, converted model has {:?}", (sy.want.bias, sy.want.char_window_size, sy.want.type_window_size), (md.bias, md.char_window_size, md.type_window_size)));
+        }
+        // it segments every text as those weights dictate
+        let (m, _) = match Model::read_slice(&out) { Ok(x) => x, Err(e) => return Some(format!("not re-read: {}", e)) };
+        let p = match Predictor::new(m, false) { Ok(p) => p, Err(e) => return Some(format!("Predictor::new rejects it: {}", e)) };
+        for text in ["abcdあい漢ア1x", "aab漢漢アア11xあ", "x", "ああああ", "dcba1ア漢いあ"] {
+            let mut s = Sentence::from_raw(text).unwrap();
+            p.predict(&mut s);
+            let want = crate::gen::reference_scores(&sy.want, text);
+            let got: Vec<i64> = s.boundary_scores().iter().map(|x| *x as i64).collect();
+            if want != got { return Some(format!("scores on {:?}: the file's weights dictate {:?}, the converted model gives {:?}", text, want, got)); }
+        }
+        // truncations of a synthetic file are rejected as well (sampled: every 7th prefix)
+        for k in (0..sy.bytes.len()).step_by(7) {
+            if KyteaModel::read(&sy.bytes[..k]).is_ok() { return Some(format!("synthetic model truncated to {} of {} bytes is accepted", k, sy.bytes.len())); }
+        }
+        None
+    });
+    let r = match r { Ok(r) => r, Err(_) => Some("panic while reading / converting / using a synthetic model".to_string()) };
+    r.map(|d| format!("{{\"replay_arg\":{},\"actual\":{}}}", crate::js(&arg), crate::js(&d)))
+}
+
 /// number of bytes of the file the reader actually consumes (KyTea writes further sections the converter never reads)
 fn consumed() -> usize {
     let bytes = file();
@@ -135,9 +279,15 @@ pub fn search() -> Option<String> {
     }
     // every truncation inside the part the reader consumes
     let n = consumed();
-    println!("STATS {{\"nontrivial\":{},\"rule\":\"the complete file (read, convert, decode, structure, documented segmentation, scores against the brute-force linear model) plus every proper prefix of the {} bytes the reader consumes\"}}", n + 1, n);
+    println!("STATS {{\"nontrivial\":{},\"rule\":\"the complete file (read, convert, decode, structure, documented segmentation, scores against the brute-force linear model) plus every proper prefix of the {} bytes the reader consumes, plus 300 (3000 thorough) seeded synthetic KyTea models (1-3 windows, 1-4 length buckets, 0-3 dictionaries with membership masks) whose converted content and scores are compared with what the generated file says\"}}", n + 1 + if crate::thorough() { 3000 } else { 300 }, n);
     for k in 0..n {
         if let Some(d) = check_prefix(k) {
+            return Some(d);
+        }
+    }
+    let n_synth: u64 = if crate::thorough() { 3000 } else { 300 };
+    for seed in 0..n_synth {
+        if let Some(d) = check_synth(seed) {
             return Some(d);
         }
     }
@@ -147,6 +297,9 @@ pub fn search() -> Option<String> {
 pub fn replay(input: &str) -> Option<String> {
     if input == "full" {
         return check_full();
+    }
+    if let Some(seed) = input.strip_prefix("synth:") {
+        return check_synth(seed.parse().unwrap());
     }
     check_prefix(input.strip_prefix("trunc:").unwrap().parse().unwrap())
 }
